@@ -127,7 +127,7 @@ def run(tier, seed, ck=None):
     ck.bounds.update({'Decode input lengths': lens0, 'form-specific decoders / UnmarshalBinary lengths': lensx, 'hex string lengths': hexl, 'contents': 'all byte values'})
     ck.outside += ['input lengths outside the tables (they take the same default/length-mismatch branch)']
     from props import C12
-    C12.run(tier, seed, ck)   # contracts of the field.Element methods used as summaries are re-proved on the current tree
+    C12.run(tier, seed, ck, which=['FromBytesWithReduce', 'Square', 'Multiply', 'Add', 'SqrtRatio', 'Sgn0', 'Negate', 'CMove', 'One', 'Set', 'Equals'])   # contracts of the field.Element methods used as summaries are re-proved on the current tree
     failures = []
     for via, lens in ((0, lens0), (1, lensx), (2, lensx), (3, lensx)):
         form = {0: 'any', 1: 'compressed', 2: 'uncompressed', 3: 'any'}[via]
